@@ -26,7 +26,31 @@ TYPES = {
     'boolOrInt': ('t:boolOrInt', 'union', [], ['true', '42', '0']),
     'decimalOrName': ('t:decimalOrName', 'union', [], ['1.5', 'gratis', 'x1', '-2']),
     'decimalOrDate': ('t:decimalOrDate', 'union', [], ['2.5', '2000-01-01', '7']),
+    'unionList': ('t:unionList', 'union', [], ['1 2000-01-01 3', '12', '', '2000-01-01', '5 6']),
+    'smallIntList': ('t:smallIntList', 'intlist', [], ['1 2', '', '10']),
 }
+# member types of the unions, in declaration order, and a lexical test per member: which member a value belongs to
+UNION_MEMBERS = {
+    'intOrDate': ['integer', 'date'], 'intBoolString': ['int', 'boolean', 'string'], 'integerOrDecimal': ['integer', 'decimal'],
+    'shortOrDouble': ['short', 'double'], 'boolOrInt': ['boolean', 'int'], 'decimalOrName': ['decimal', 'NCName'],
+    'decimalOrDate': ['decimal', 'date'],
+}
+_LEX = {
+    'integer': r'^[+-]?[0-9]+$', 'int': r'^[+-]?[0-9]{1,9}$', 'short': r'^[+-]?[0-9]{1,4}$', 'decimal': r'^[+-]?([0-9]+(\.[0-9]*)?|\.[0-9]+)$',
+    'double': r'^[+-]?([0-9]+(\.[0-9]*)?|\.[0-9]+)([eE][+-]?[0-9]+)?$|^-?INF$|^NaN$', 'boolean': r'^(true|false|1|0)$',
+    'date': r'^-?[0-9]{4,}-[0-9]{2}-[0-9]{2}(Z|[+-][0-9]{2}:[0-9]{2})?$', 'NCName': r'^[A-Za-z_][\w.-]*$', 'string': r'^',
+}
+
+
+def union_member(tkey, lex):
+    """(index, member type) of the first member of union tkey that accepts the lexical value, or None."""
+    import re
+    for i, m in enumerate(UNION_MEMBERS.get(tkey, ())):
+        if re.match(_LEX[m], lex.strip()):
+            return i, m
+    return None
+
+
 # lexical values that are valid only with XSD 1.1 (year zero) or that XSD 1.0 and 1.1 decode differently (BCE years)
 XSD11_VALUES = {'date': ['0000-01-01', '-0044-03-15'], 'intOrDate': ['-0044-03-15', '0000-06-01', '12'],
                 'dateTime': ['0000-01-01T00:00:00', '-0001-12-31T23:59:59Z'], 'decimalOrDate': ['-0044-03-15', '2.5']}
@@ -44,6 +68,8 @@ NAMED_TYPES = '''
  <xs:simpleType name="boolOrInt"><xs:union memberTypes="xs:boolean xs:int"/></xs:simpleType>
  <xs:simpleType name="decimalOrName"><xs:union memberTypes="xs:decimal xs:NCName"/></xs:simpleType>
  <xs:simpleType name="decimalOrDate"><xs:union memberTypes="xs:decimal xs:date"/></xs:simpleType>
+ <xs:simpleType name="unionList"><xs:list itemType="t:intOrDate"/></xs:simpleType>
+ <xs:simpleType name="smallIntList"><xs:list itemType="t:smallInt"/></xs:simpleType>
 '''
 
 # a second schema for the same vocabulary must accept the same instances: map every type to a supertype
@@ -52,7 +78,8 @@ SUPERTYPE = {
     'float': 'double', 'boolean': 'string', 'string': 'string', 'token': 'string', 'date': 'string',
     'dateTime': 'string', 'time': 'string', 'anyURI': 'string', 'smallInt': 'integer', 'intList': 'string',
     'intOrDate': 'string', 'intBoolString': 'string', 'integerOrDecimal': 'string', 'shortOrDouble': 'string',
-    'boolOrInt': 'string', 'decimalOrName': 'string', 'decimalOrDate': 'string',
+    'boolOrInt': 'string', 'decimalOrName': 'string', 'decimalOrDate': 'string', 'unionList': 'string',
+    'smallIntList': 'string',
 }
 
 
